@@ -388,7 +388,8 @@ fn test(case: &Case, st: &mut Stats, counting: bool) -> CaseResult {
                 let tp = at(&b_under, &format!("{}{}", p_total, q)).map_err(|e| (step, e.to_string()))?;
                 let ha = vp.create_file();
                 let hb = tp.create_file();
-                if let (Ok(mut ha), Ok(mut hb)) = (ha, hb) {
+                if let (Ok(ha), Ok(hb)) = (ha, hb) {
+                    let (mut ha, mut hb) = (crate::util::hold(ha), crate::util::hold(hb));
                     let _ = ha.write_all(bytes);
                     let _ = hb.write_all(bytes);
                     let look = |root: &VfsPath| -> (Option<u64>, Option<Vec<u8>>) {
